@@ -37,7 +37,7 @@ DAY = 86_400 * SEC
 
 
 def rand_ev(rng, grid=8, base=T0):
-    dur = rng.choice([0, 0, SEC, 2 * SEC, 3 * SEC])
+    dur = rng.choice([0, 0, SEC, 2 * SEC, 3 * SEC, 3, 1_234_567])
     if rng.random() < 0.06:  # day-scale durations (timedelta keeps days, seconds and microseconds apart)
         dur = rng.choice([DAY, DAY + SEC, 2 * DAY + 1500, 30 * DAY])
     return [None, base + rng.randrange(grid) * SEC, dur, rng.choice(LABELS)]
